@@ -7,7 +7,7 @@ import seedtool
 
 RELATED = {"C01": ["C01", "C11"], "C02": ["C02", "C11", "C01"], "C06": ["C06", "C16", "C05"], "C13": ["C13", "C16"], "C03": ["C03", "C10"], "C04": ["C04", "C01"], "C05": ["C05", "C11"],
            "C12": ["C12", "C10"], "C14": ["C14", "C11"], "C18": ["C18", "C11"],
-           "C09": ["C09"], "C10": ["C10", "C18"], "C11": ["C11"], "C15": ["C15"],
+           "C09": ["C09", "C18"], "C10": ["C10", "C18"], "C11": ["C11"], "C15": ["C15"],
            "C16": ["C16", "C20"], "C19": ["C19"], "C20": ["C20"]}
 CHECKS = json.load(open(os.environ["SEED_CHECKS"])) if os.environ.get("SEED_CHECKS") else {}
 NOTES = json.load(open("/verif/seeded/notes.json")) if os.path.exists("/verif/seeded/notes.json") else {}
